@@ -39,6 +39,12 @@ def gen_cases(tier, seed):
     for cls in ("kLeastAbsErrorsCycles", "kMinPathErrorCycles"):
         for i in range(max(12, n // 2)):
             cases.append({"kind": "ign", "cls": cls, "rs": f"C10it:{seed}:{cls}:{i}", "trusted": True})
+    # length coverage of a CROSSING constraint whose first edge has no length attribute (documented: counts as length 1) and whose second edge is short:
+    # the route through the second edge alone stays below the requested fraction, so one more route through the crossing is needed (seed C10-l).
+    # Appended last, own random streams.
+    for cls in [c for c in W.ALL if not c.endswith("Cycles")]:
+        for i in range(6 if tier == "quick" else 40):
+            cases.append({"kind": "cons", "cls": cls, "rs": f"C10xl:{seed}:{cls}:{i}", "want": "crosslen"})
     return cases
 
 
@@ -121,7 +127,8 @@ def run_cons(case, viol, obs):
         return None, False, None
     ckey = "subset_constraints" if cyc else "subpath_constraints"
     crossing = False
-    if not cyc and not node and rng.random() < 0.4:
+    force_xl = case.get("want") == "crosslen"
+    if not cyc and not node and (rng.random() < 0.4 or force_xl):
         # a 'crossing' constraint: an edge of one planted path into a shared node followed by an edge of ANOTHER planted path out of it. No planted
         # path (and typically no path of a greedy decomposition) contains both, although different paths contain one each; one more path
         # (weight 0 if need be) through the crossing satisfies it, so k = planted + 1 keeps every k-model feasible
@@ -147,10 +154,14 @@ def run_cons(case, viol, obs):
     cov = rng.choice([1.0, 1.0, 0.75, 0.5, 0.34])
     covlen = None; lengths = {}
     extra = None
-    if not cyc and not node and rng.random() < 0.25:
+    if not cyc and not node and (rng.random() < 0.25 or force_xl):
         covlen = rng.choice([1.0, 0.6, 0.4]); cov = 1.0
         lv = rng.choice([[1, 2, 5], [0.5, 1.5, 2.25], [0.3, 1.7, 2.9]])
         lengths = {e: rng.choice(lv) for e in base["edges"] if rng.random() < 0.7}
+        if force_xl and crossing:
+            ea_, eb_ = tuple(cons[0][0]), tuple(cons[0][1])
+            lengths.pop(ea_, None); lengths[eb_] = rng.choice([1, 1, 2]); covlen = rng.choice([0.8, 0.9, 1.0])
+            obs["c10.crossing_length_coverage_with_missing_length"] += 1
         extra = {e: {"len": l} for e, l in lengths.items()}
         kw["subpath_constraints_coverage_length"] = covlen; kw["length_attr"] = "len"
     else:
